@@ -227,6 +227,18 @@ def rule_r2(ctx, rid="C17.R2"):
             ctx.r.ok(rid, "prepare(): pos restored and remain <= end - pos on path %s" % _fmt_assume(st), f.loc())
         else:
             ctx.r.violation(rid, key_of(f, None, "prepare-remain"), "prepare() sets remain = %s, not bounded by the bytes available (%s)" % (rem, avail), f.loc())
+        # ... and never more than the size asked for: unless the path established `size is None`, remain <= size
+        sz = f.params[1] if len(f.params) > 1 else None
+        if sz is not None and isinstance(rem, Lin):
+            no_size = st.assume.get("%s is None" % sz) is True or st.assume.get("%s is not None" % sz) is False \
+                or st.assume.get("%s == None" % sz) is True or st.assume.get("%s != None" % sz) is False
+            S = Lin.sym(sz)
+            bounded = rem == S or any(k == "le" and a == rem and b == S for (k, a, b) in st.facts)
+            if no_size or bounded:
+                ctx.r.ok(rid, "prepare(): remain <= requested size (or no size requested) on path %s" % _fmt_assume(st), f.loc())
+            else:
+                ctx.r.violation(rid, key_of(f, None, "prepare-exceeds-size"),
+                                "prepare(%s) can set remain = %s on a path that has not established `%s is None` (%s): a requested size of 0 prepares the whole file" % (sz, rem, sz, _fmt_assume(st)), f.loc())
     if seen == 0:
         ctx.r.error(rid, "no seekable path found in prepare()")
     from .c03 import rule_r6
